@@ -303,9 +303,14 @@ func c16Gen(seed int64, idx int) *c16Case {
 			yang.S("identity", "mid", yang.S("base", "i1:base-id")), yang.S("identity", "mid-unrelated", yang.S("base", "i1:other-base")))
 		i3 := yang.S("module", "idm3", yang.S("namespace", "urn:verif:idm3"), yang.S("prefix", "i3"), yang.S("import", "idm2", yang.S("prefix", "i2")),
 			yang.S("identity", "leaf-id", yang.S("base", "i2:mid")), yang.S("identity", "local-derived", yang.S("base", "i2:mid-unrelated")))
+		// two identities called "mid", in idm2 and idm3, both derived from base-id and each with its own descendants
+		i2.Add(yang.S("identity", "deep", yang.S("base", "mid")))
+		i3.Add(yang.S("import", "idm1", yang.S("prefix", "i1")), yang.S("identity", "mid", yang.S("base", "i1:base-id")), yang.S("identity", "sub-of-homonym", yang.S("base", "mid")))
+		yang.SortSections(i2)
+		yang.SortSections(i3)
 		c.mods = []*yang.Stmt{i1, i2, i3}
 		// the leaf lives in idm1 (base local) or in t16 (everything foreign)
-		derived := map[string]string{"local-derived": "idm1", "mid": "idm2", "leaf-id": "idm3"}
+		derived := [][2]string{{"local-derived", "idm1"}, {"mid", "idm2"}, {"leaf-id", "idm3"}, {"deep", "idm2"}, {"mid", "idm3"}, {"sub-of-homonym", "idm3"}}
 		c.model = &yang.RType{Kind: "identityref", Idents: map[string]bool{}}
 		if r.Bool() {
 			c.leafMod = "idm1"
@@ -314,7 +319,8 @@ func c16Gen(seed int64, idx int) *c16Case {
 			m.Add(yang.S("import", "idm1", yang.S("prefix", "ii")))
 			typ = yang.S("type", "identityref", yang.S("base", "ii:base-id"))
 		}
-		for id, mod := range derived {
+		for _, dm := range derived {
+			id, mod := dm[0], dm[1]
 			c.model.Idents[mod+":"+id] = true
 			probe(mod + ":" + id)
 			probe(id)
